@@ -506,3 +506,44 @@ def r_limit_on_plane(cx):
                   if ok else "%s inverse: the value compared with the domain limit %s is not an arithmetic function of the "
                   "input easting / northing" % (c.names[0], float(k)), cx.where(sp))
     cx.count("R-LIMIT-ON-PLANE", "paired_limits", n)
+
+
+@rule("R-RF-ZERO-CONVENTION", ["C06", "C14"])
+def r_rf_zero_convention(cx):
+    """The ellipsoid table follows the EPSG convention that a reciprocal flattening of zero stands for a flattening of
+    zero (the spheres of the table). Both constructors that read the table - Ellipsoid::named and
+    TriaxialEllipsoid::named - divide by a table rf only where rf != 0 is known (a dominating test of that very value):
+    an unguarded `1 / rf` turns the table's spheres into objects of infinite flattening in one of the two constructors."""
+    import guards
+    n = 0
+    for fn in ("ellipsoid::biaxial::Ellipsoid::named", "ellipsoid::triaxial::TriaxialEllipsoid::named"):
+        if not cx.f.has_fn(fn):
+            cx.ob("R-RF-ZERO-CONVENTION", fn, False, "anchor-missing: %s" % fn)
+            continue
+        f = cx.f.fn(fn)
+        sites = 0
+        for bb, i, s in f.all_stmts():
+            if not (s["k"] == "assign" and s["rv"]["k"] == "bin" and s["rv"].get("op") == "Div"):
+                continue
+            v = f.rvalue(s["rv"], (bb, i))
+            if v[0] != "bin" or _fnum(mir.strip_refs(v[2])) != 1.0:
+                continue
+            den = mir.strip_refs(v[3])
+            from_table = []
+            mir.walk(den, lambda y: (from_table.append(1) if y[0] == "const" and "ELLIPSOID_LIST" in str(y[2]) else None) or True)
+            if not from_table:
+                continue
+            sites += 1
+            n += 1
+            facts = guards.branch_facts(f, bb)
+            ok = any((at[0] == "bin" and at[1] == "Ne" and tv or at[0] == "bin" and at[1] == "Eq" and not tv) and
+                     mir.strip_refs(at[2]) == den and _fnum(mir.strip_refs(at[3])) == 0.0 for at, tv in facts)
+            cx.ob("R-RF-ZERO-CONVENTION", "%s/div%d" % (fn, sites - 1), ok,
+                  "%s divides by a table rf only where rf != 0" % fn if ok else
+                  "%s computes 1 / rf for a table entry without having tested rf != 0: the table's spheres (rf = 0) get an "
+                  "infinite flattening" % fn, cx.where(s.get("span")))
+        if sites == 0:
+            n += 1
+            cx.ob("R-RF-ZERO-CONVENTION", fn, False,
+                  "anchor-missing: %s no longer derives the flattening of a table entry from its rf" % fn, cx.where(f.d["span"]))
+    cx.count("R-RF-ZERO-CONVENTION", "table_divisions", n)
